@@ -22,7 +22,7 @@ func addFloors(sub *lab.SubCheck) {
 	sub.Floor("not-listed", 0.10)
 	sub.Floor("type-mismatch", 0.10)
 	sub.Floor("below-min-size", 0.10)
-	sub.Floor("already-encoded", 0.10)
+	sub.Floor("already-encoded", 0.08)
 	sub.Floor("len=min", 0.10)
 	sub.Floor("len=min-1", 0.04)
 	sub.Floor("len=min+1", 0.04)
